@@ -102,6 +102,21 @@ def run_shard(cfg):
                     viol("dumpb-loadb-differs", "dumpb/loadb disagree with serialize_value for %s" % type(v).__name__, {"value": short(v, 80)})
             except Exception as e:
                 viol("dumpb-loadb-raised", "dumpb/loadb raised %r for %s" % (e, type(v).__name__), {"value": short(v, 80)})
+        # a history of refused (truncated / damaged) inputs must not disturb later decodes
+        if i % 3 == 0 and len(b) > 3:
+            bad = b[:r.randrange(3, len(b))] if i % 5 else bytes([b[0], b[1] ^ 0x40]) + b[2:]
+            try:
+                decode_all(bad)
+            except Exception:
+                c.inc("refused_inputs_interleaved")
+            try:
+                again, pos2 = decode_all(b)
+                if G.canon(again[0]) != want or pos2 != len(b):
+                    viol("decode-disturbed-by-earlier-failure", "after a refused input the valid encoding of %s decodes differently" % short(v, 30), {"value": short(v, 60)})
+                else:
+                    c.inc("decodes_after_refused_input_equal")
+            except Exception as e:
+                viol("decode-disturbed-by-earlier-failure", "after %d refused inputs a valid encoding is refused: %r" % (c.get("refused_inputs_interleaved", 0), e), {"value": short(v, 60)})
         # concatenation: self-delimiting encodings decode one after another
         pending.append((b, want))
         if len(pending) == 5:
@@ -117,6 +132,7 @@ def run_shard(cfg):
             pending = []
         if len(samples) < 3 and i > 20 and type(v) in (dict, list) and len(b) < 200:
             samples.append({"value": short(v, 80), "encoding_hex": b.hex()[:160], "bytes": len(b)})
+    c.inc("fields_none_with_non_none_default", getattr(gen, "none_fields", 0))
     # ---- the documented size limits themselves are inside the domain (shard 0 only: they are large)
     if cfg["shard"] == 0:
         limits = [("str-1MiB", "a" * (2 ** 20)), ("str-1MiB-utf8", "é" * (2 ** 19)), ("bytes-1MiB", b"\x01" * (2 ** 20)),
@@ -165,7 +181,8 @@ def run_shard(cfg):
 def finish(tier, seed, results):
     m = merge(results)
     inconclusive = []
-    need(m["counters"], ["values", "encoded", "roundtrips_equal", "concatenations", "dumpb_loadb", "out_of_domain_refused", "limit_values_roundtrip"], inconclusive)
+    need(m["counters"], ["values", "encoded", "roundtrips_equal", "concatenations", "dumpb_loadb", "out_of_domain_refused", "limit_values_roundtrip",
+                         "refused_inputs_interleaved", "decodes_after_refused_input_equal", "fields_none_with_non_none_default"], inconclusive)
     cov = {
         "evaluations": m["evaluations"],
         "distinct_nontrivial": m["distinct_nontrivial"],
